@@ -126,14 +126,26 @@ class Observer:
                 return True
             g = v.groups.get((job['batch_id'], job['job_group_id']))
             return bool(g and g['state'] == 'running')
-        if ws[0] not in ('schedule', 'creating', 'started'):
+        if ws[0] == 'unschedule':
+            # both callers (canceller.py) take (attempt, instance) from a row of `attempts`
+            a = v.attempts.get((int(ws[1]), int(ws[2]), f'att{ws[3]}'))
+            return a is not None and a['instance_name'] == f'inst{ws[4]}'
+        if ws[0] not in ('schedule', 'creating', 'started', 'complete'):
             return True
+        # (a worker can report started / complete for an attempt the database does not know yet: driver.job.schedule_job posts the job
+        # to the worker BEFORE it calls the procedure; but only for a job the scheduler selected)
         b, j, a = int(ws[1]), int(ws[2]), f'att{ws[3]}'
         job = v.jobs.get((b, j))
         if job is None:
             return True
         if (b, j, a) in v.attempts:
             return True
+        if ws[0] == 'schedule':
+            # the pool scheduler picks instances from healthy_instances_by_free_cores: activated ones (an instance can be deactivated
+            # or deleted between the choice and the CALL, it cannot be 'pending' again)
+            inst = v.instances.get(f'inst{ws[4]}')
+            if inst is not None and inst['state'] == 'pending':
+                return False
         g = v.groups.get((b, job['job_group_id']))
         return bool(g and g['state'] == 'running' and not v.batches[b]['deleted'])
 
@@ -190,7 +202,7 @@ def final_check(name: str, obs: Observer):
 def _name_class(obs: Observer, default: str) -> str:
     v = obs.cur
     if any(not v.committed(j['batch_id'], j['update_id']) and not v.parents.get((j['batch_id'], j['job_id'])) and j['state'] not in ('Pending', 'Ready')
-           for j in v.jobs.values()):
+           and j['update_id'] == 1 for j in v.jobs.values()):
         return 'ready-job-of-uncommitted-update-scheduled-in-running-group'
     if obs.activated_uncommitted_children():
         return 'complete-parent-while-child-update-uncommitted'
@@ -724,6 +736,18 @@ def c09(obs: Observer):
             # (a deleted batch answers 404 to everything, also to a re-sent update request: repo commit 4c50f4344)
             if ws[0] in ('createBatch', 'createUpdate') and obs.ans != accepted[0] and not deleted:
                 return (f're-sent-{ws[0]}-answered-differently', f're-sending `{obs.op}` answered {obs.ans}, first answer {accepted[0]}')
+            if ws[0] in ('insertGroups', 'insertJobs') and not obs.ans.startswith('ok'):
+                # a bunch that was accepted is accepted again (the client retries after a lost answer) as long as nothing else happened to
+                # the batch: not deleted, the update still open, no job group cancelled (those legitimately answer 4xx)
+                b, u = int(ws[1]), int(ws[2])
+                bt, up = p.batches.get(b), p.updates.get((b, u))
+                if bt and not bt['deleted'] and up and not up['committed'] and not any(k[0] == b for k in p.cancelled):
+                    if ws[0] == 'insertGroups':
+                        # _create_job_groups answers 400 'job group specs were not submitted in order' to a re-sent bunch: the state is
+                        # untouched (checked above), which is all the property asks; recorded in the distribution only
+                        obs.tag('resent-group-bunch-answered-400')
+                        return None
+                    return (f're-sent-{ws[0]}-answered-differently', f're-sending the accepted bunch `{obs.op}` answered {obs.ans}')
     per: Dict[int, List[dict]] = {}
     for (b, u), r in v.updates.items():
         per.setdefault(b, []).append(r)
@@ -829,8 +853,11 @@ def c41(obs: Observer):
     for (b, j) in vis:
         job = v.jobs[(b, j)]
         if not v.committed(b, job['update_id']):
+            # the two known mechanisms: a child activated by its parent's completion; a parentless job of update 1 (inserted Ready by
+            # _create_jobs) when a later update was committed first.  Anything else is a different defect and keeps its own name.
             cls = 'complete-parent-while-child-update-uncommitted' if v.parents.get((b, j)) else \
-                'ready-job-of-uncommitted-update-in-running-group'
+                'ready-job-of-uncommitted-update-in-running-group' if job['update_id'] == 1 else \
+                'parentless-job-of-later-uncommitted-update-visible'
             return (cls, f'the scheduler\'s SELECT returns job {(b, j)} of update {job["update_id"]}, which is not committed')
     if any(not u['committed'] for u in v.updates.values()) and v.jobs:
         obs.tag('uncommitted-update-present')
@@ -919,7 +946,7 @@ def c41_final(obs: Observer):
                     cls = 'uncommitted-update-changes-' + part.replace(' ', '-')
                     if ws[0] == 'complete' and any(ch in jr for ch in views[i].children.get((b, int(ws[2])), [])):
                         cls = 'complete-parent-while-child-update-uncommitted'
-                    elif erased_sched:
+                    elif erased_sched and u == 1:
                         cls = 'ready-job-of-uncommitted-update-in-running-group'
                     return (cls, f'update {u} of batch {b} is never committed, yet after `{op}` the {part} differ from the run without its content: '
                                  f'{key}: with = {a[part].get(key) if key is not None else a[part]}, without = {c[part].get(key) if key is not None else c[part]}')
